@@ -3,7 +3,7 @@
 GEN = """SPECIFICATION Spec
 CONSTANTS MaxN = {maxn}
           MaxE = {maxe}
-          MaxInt = 12
+          MaxInt = 24
           Legacy = {legacy}
           Mode = "{mode}"
           MaxHist = {maxh}
@@ -21,7 +21,7 @@ CHECK_DEADLOCK FALSE
 TRACE = """SPECIFICATION TSpec
 CONSTANTS MaxN = {maxn}
           MaxE = {maxe}
-          MaxInt = 12
+          MaxInt = 24
           Legacy = {{}}
           CheckProbes = {probes}
           OpenKF = @OPENKF@
@@ -73,3 +73,24 @@ def corrupt_dump(ev, rng):
         ev["res"] = "err" if ev.get("res") == "ok" else "ok"
         ev["_corrupted"] = "res"
     return True
+
+
+def dedup(scripts):
+    import json
+    seen, out = set(), []
+    for s in scripts:
+        k = json.dumps(s, sort_keys=True)
+        if k not in seen:
+            seen.add(k)
+            out.append(s)
+    return out
+
+
+def cap(ctx, scripts, n, what):
+    """seeded sample when a tier's budget cannot replay every generated script (the evidence says so)"""
+    scripts = dedup(scripts)
+    if len(scripts) <= n:
+        return scripts
+    ctx.assume("%s: %d distinct scripts generated, a seeded sample of %d replayed in this tier" % (what, len(scripts), n))
+    idx = sorted(ctx.rng.sample(range(len(scripts)), n))
+    return [scripts[i] for i in idx]
